@@ -99,6 +99,87 @@ var scripts = []struct {
 		h.do("SetSequence", func() { h.setSequenceWith(c, []byte("ttttt")) })
 		h.do("RC", func() { h.opRC(c, false) })
 	}},
+	// --- zero-length slices that keep a capacity (Clear, ClearQualities, NewEmptyBioSequence(n>0)) ---
+	{"clear; copy; append to the source, then to the copy", func(h *hist) {
+		var x, c *entity
+		h.do("New", func() { x = h.newWith(plain("acgtacgtacgtacgt", false), "") })
+		h.do("Clear", func() { h.opClear(x) })
+		h.do("Copy", func() { h.opCopy(x); c = h.ents[len(h.ents)-1] })
+		h.do("Append", func() { h.appendWith(x, []byte("aaaa"), nil, 0, 0) })
+		h.do("Append", func() { h.appendWith(c, []byte("gg"), nil, 1, 0) })
+	}},
+	{"clear with qualities; copy; append nucleotides and qualities to both", func(h *hist) {
+		var x, c *entity
+		h.do("New", func() { x = h.newWith(plain("acgtacgtacgtacgt", true), "") })
+		h.do("Clear", func() { h.opClear(x) })
+		h.do("Copy", func() { h.opCopy(x); c = h.ents[len(h.ents)-1] })
+		h.do("Append", func() { h.appendWith(c, []byte("ttt"), []byte{30, 31, 32}, 2, 1) })
+		h.do("Append", func() { h.appendWith(x, []byte("cc"), []byte{7, 8}, 0, 0) })
+	}},
+	{"ClearQualities; copy; give qualities back to both", func(h *hist) {
+		var x, c *entity
+		h.do("New", func() { x = h.newWith(plain("acgtacgt", true), "") })
+		h.do("ClearQualities", func() { h.opClearQualities(x) })
+		h.do("Copy", func() { h.opCopy(x); c = h.ents[len(h.ents)-1] })
+		h.do("WriteQualities", func() {
+			h.note("WriteQualities #%d", x.id)
+			x.obj.WriteQualities([]byte{1, 2, 3, 4, 5, 6, 7, 8})
+			x.sh.qual = []byte{1, 2, 3, 4, 5, 6, 7, 8}
+			h.touch(x, "Append")
+		})
+		h.do("WriteQualities", func() {
+			h.note("WriteByteQualities #%d", c.id)
+			for i := 0; i < 8; i++ {
+				c.obj.WriteByteQualities(byte(40 + i))
+			}
+			c.sh.qual = []byte{40, 41, 42, 43, 44, 45, 46, 47}
+			h.touch(c, "Append")
+		})
+	}},
+	{"preallocated empty sequence; copy; write to both", func(h *hist) {
+		var x, c *entity
+		h.do("NewEmpty", func() { x = h.newEmptyWith(64) })
+		h.do("Copy", func() { h.opCopy(x); c = h.ents[len(h.ents)-1] })
+		h.do("Append", func() { h.appendWith(x, []byte("acgtacgt"), nil, 2, 0) })
+		h.do("Append", func() { h.appendWith(c, []byte("ttttt"), nil, 0, 0) })
+	}},
+	{"empty accumulator; two Join(false)", func(h *hist) {
+		var acc, x, y *entity
+		h.do("NewEmpty", func() { acc = h.newEmptyWith(100) })
+		h.do("New", func() { x = h.newWith(plain("aaaaacccc", false), "") })
+		h.do("New", func() { y = h.newWith(plain("ggggtt", false), "") })
+		h.do("Join", func() { h.opJoin(acc, x, false) })
+		h.do("Join", func() { h.opJoin(acc, y, false) })
+		h.do("Join-inplace", func() { h.opJoin(acc, y, true) })
+	}},
+	{"clear; reverse complement (not in place); append to both", func(h *hist) {
+		var x, c *entity
+		h.do("New", func() { x = h.newWith(plain("acgtacgtac", true), "") })
+		h.do("Clear", func() { h.opClear(x) })
+		h.do("RC", func() { h.opRC(x, false); c = h.ents[len(h.ents)-1] })
+		h.do("Append", func() { h.appendWith(x, []byte("acc"), []byte{1, 2, 3}, 0, 0) })
+		h.do("Append", func() { h.appendWith(c, []byte("tg"), []byte{9, 9}, 0, 1) })
+		h.do("RC-inplace", func() { h.opRC(c, true) })
+	}},
+	{"clear; copy; recycle the source; use the copy while the pool is drawn from", func(h *hist) {
+		var x, c *entity
+		h.do("New", func() { x = h.newWith(plain("acgtacgtacgtacgtacgtacgt", true), "") })
+		h.do("Clear", func() { h.opClear(x) })
+		h.do("Copy", func() { h.opCopy(x); c = h.ents[len(h.ents)-1] })
+		h.do("Recycle", func() { h.opRecycle(x) })
+		h.do("Append", func() { h.appendWith(c, []byte("gattaca"), []byte{1, 2, 3, 4, 5, 6, 7}, 0, 0) })
+		h.do("New", func() { h.newWith(plain("ccccccccccc", true), "") })
+		h.do("New", func() { h.newWith(plain("ttttttttttt", true), "") })
+	}},
+	{"clear; copy; SetSequence / SetQualities on the cleared source; append to the copy", func(h *hist) {
+		var x, c *entity
+		h.do("New", func() { x = h.newWith(plain("acgtacgtacgt", true), "") })
+		h.do("Clear", func() { h.opClear(x) })
+		h.do("Copy", func() { h.opCopy(x); c = h.ents[len(h.ents)-1] })
+		h.do("SetSequence", func() { h.setSequenceWith(x, []byte("ggg")); h.setQualitiesWith(x, []byte{5, 6, 7}) })
+		h.do("Append", func() { h.appendWith(c, []byte("aaaaa"), []byte{1, 1, 1, 1, 1}, 1, 0) })
+		h.do("New", func() { h.newWith(plain("ccccc", true), "") })
+	}},
 }
 
 func runScript(c *core.Ctx, h *hist, i int) {
